@@ -441,6 +441,13 @@ func (s *rpcServer) handleServerMessage(
 
 	case *auctioneerrpc.ServerAuctionMessage_Sign:
 		batch := s.orderManager.PendingBatch()
+		if batch == nil {
+			// The auctioneer asks us to sign a batch we never
+			// accepted, there is nothing we could refer to.
+			err := fmt.Errorf("no pending batch to sign")
+			rpcLog.Errorf("Error handling sign msg: %v", err)
+			return s.sendRejectUnparsedBatch(msg.Sign.BatchId, err)
+		}
 
 		// There is some auxiliary information in the "sign" message
 		// that we need for the MuSig2/Taproot signing, let's try to
